@@ -318,3 +318,30 @@ Proof.
       destruct (fix_codes cfg l2) as [[l3 [|]]|e'|k'] eqn:Hf; try discriminate. exact (fix_codes_no_crash _ _ _ Hf).
   - cbn [lbind obind]. rewrite HK. symmetry. etransitivity; [exact (HM d1 None false)|reflexivity].
 Qed.
+
+(* ---------- the statements restated in Props/C19.v ---------- *)
+Lemma src_get_language_for_name_seen cfg name :
+  seen own_lookup (src_get_language_for_name (env_of cfg) name) = get_language_for_name cfg name.
+Proof.
+  rewrite src_get_language_for_name_eq. destruct (get_language_for_name cfg name) as [l|[]|c] eqn:H; try reflexivity.
+  apply get_language_for_name_crash in H. subst c. reflexivity.
+Qed.
+
+Lemma src_tie_lookups cfg k :
+  src_lookup_language_code (env_of cfg) k = lg_lookup (cfg_iso639 cfg) k /\
+  src_lookup_territory_code (env_of cfg) k = lookup_territory_code cfg k.
+Proof. split; reflexivity. Qed.
+
+Lemma src_tie_compare E a b :
+  src_get_tuple E a = (l_lang a, l_terr a, l_enc a, l_mod a) /\ src_eq E a b = lang_eqb a b /\ src_ne E a b = negb (lang_eqb a b).
+Proof. repeat split. Qed.
+
+Lemma src_tie_remove E l :
+  src_remove_encoding E l = LRet (fst (remove_encoding l), flag (snd (remove_encoding l))) /\
+  src_remove_nonlinguistic_modifier E l = LRet (fst (remove_nonlinguistic_modifier l), flag (snd (remove_nonlinguistic_modifier l))).
+Proof. split; [apply src_remove_encoding_eq|apply src_remove_nonlinguistic_modifier_eq]. Qed.
+
+Lemma src_tie_parse cfg s :
+  (forall ll cc en md, src_init (env_of cfg) ll cc en md = LRet (mkLang ll cc (option_map (map ascii_upper) en) md)) /\
+  seen own_syntax (src_parse_language (env_of cfg) s) = parse_language s.
+Proof. split; [apply src_init_eq|apply src_parse_language_seen]. Qed.
